@@ -543,14 +543,15 @@ pub fn c06_def() -> HistProp {
         scenarios: |t| {
             let quick = t == "quick";
             let mut v: Vec<(String, ScenMaker)> = Vec::new();
-            for (k, sub_free) in [(VolKind::V16a, 1usize), (VolKind::V32a, 0)] {
+            // (V16b / V32b: several blocks per cluster, so a directory's second block lies in its first cluster)
+            for (k, sub_free, less) in [(VolKind::V16a, 1usize, 0usize), (VolKind::V32a, 0, 0), (VolKind::V32b, 1, 1), (VolKind::V16b, 0, 1)] {
                 let o = MutOpts {
                     kind: k,
                     free: None,
                     root_free_slots: None,
                     sub_free_slots: sub_free,
                     fsinfo: FsInfo::Correct,
-                    depth: if quick { 4 } else { 5 },
+                    depth: if quick { 4 - less } else { 5 - less },
                     moving_clock: true,
                     alphabet: Alpha::Mutate,
                     victim: false,
